@@ -177,6 +177,7 @@ func (fx *FnCtx) generate() {
 	fx.modAll = false
 	fx.recording = false
 	fx.runAll()
+	fx.foldAxioms()
 	fx.renderAxioms()
 }
 
@@ -250,6 +251,9 @@ func (fx *FnCtx) runAll() {
 	p := fx.entryPath()
 	if p != nil {
 		p.blockingInventory()
+		if fx.spec != nil && fx.spec.Attrs["lemmas"] != "" {
+			p.lemmaObligations()
+		}
 		p.cover("pre", "")
 		p.runBlock(fx.fn.Blocks[0], nil)
 	}
@@ -343,7 +347,7 @@ func (fx *FnCtx) entryPath() *Path {
 		c.old = nil
 		c.fn = nil // preconditions talk about parameters, not about locals
 		c.closureCells = p.freeVarCells()
-		for _, r := range fx.spec.Requires {
+		for _, r := range fx.spec.allRequires() {
 			p.assumeClause(c, r, "requires")
 		}
 	}
@@ -451,7 +455,7 @@ func (fx *FnCtx) loopPath(head *ssa.BasicBlock) *Path {
 		c.old = nil
 		c.fn = nil
 		c.closureCells = p.freeVarCells()
-		for _, r := range fx.spec.Requires {
+		for _, r := range fx.spec.allRequires() {
 			p.assumeClause(c, r, "requires")
 		}
 	}
@@ -857,7 +861,7 @@ func (p *Path) checkPost(site string, vars map[string]Val, panicExit bool) {
 			c.closureCells[fv.Name()] = p.val(fv)
 		}
 	}
-	clauses := fx.spec.Ensures
+	clauses := fx.spec.allEnsures()
 	kind := "post"
 	if panicExit {
 		clauses = fx.spec.OnPanic
